@@ -63,7 +63,12 @@ func (c *Controller) scaleUpCloudProviderNodeGroup(opts scaleOpts) (int, error) 
 	}
 
 	nodegroupName := opts.nodeGroup.Opts.Name
-	nodesToAdd := c.calculateNodesToAdd(int64(opts.nodesDelta), cloudProviderNodeGroup.TargetSize(), cloudProviderNodeGroup.MaxSize())
+	// never grow beyond the node group's max_nodes nor the cloud provider's own maximum
+	maxNodes := cloudProviderNodeGroup.MaxSize()
+	if int64(opts.nodeGroup.Opts.MaxNodes) < maxNodes {
+		maxNodes = int64(opts.nodeGroup.Opts.MaxNodes)
+	}
+	nodesToAdd := c.calculateNodesToAdd(int64(opts.nodesDelta), cloudProviderNodeGroup.TargetSize(), maxNodes)
 	if nodesToAdd <= 0 {
 		err := fmt.Errorf(
 			"refusing to scaleup up beyond the maximum size of the autoscaling group (TargetSize: %v; MaxNodes: %v). Taking no action",
